@@ -353,7 +353,9 @@ func c12Spaces(tier string) []*explore.Space {
 	var o2 []gen.Expr
 	for _, x := range allTests {
 		o2 = append(o2, gen.AbsP(gen.DSlash(), gen.Ch(x)), relPath(gen.Dot(), gen.DSlash(), gen.Ch(x)), relPath(gen.St("descendant", x)),
-			gen.AbsP(gen.St("descendant-or-self", x)), relPath(gen.St("descendant-or-self", x)), gen.AbsP(gen.St("descendant", x)))
+			gen.AbsP(gen.St("descendant-or-self", x)), relPath(gen.St("descendant-or-self", x)), gen.AbsP(gen.St("descendant", x)),
+			// the expansion of // written out (C10: // = /descendant-or-self::node()/)
+			relPath(gen.St("descendant-or-self", "node()"), gen.Ch(x)), gen.AbsP(gen.St("descendant-or-self", "node()"), gen.Ch(x)), relPath(gen.Dot(), gen.St("descendant-or-self", "node()"), gen.Ch(x)))
 	}
 	// O3: flat paths with the predicates C02/C03 allow
 	var o3 []gen.Expr
